@@ -79,18 +79,25 @@ def _build_world(prop, variant=None):
     return mod, w, items
 
 
+_WORLDS = {}
+
+
 def _work(arg):
-    prop, variant, idx, timeout_ms = arg
+    prop, variant, idx, timeout_ms = arg[:4]
+    prefix = arg[4] if len(arg) > 4 else None
     smt.QUICK_TIMEOUT_MS = timeout_ms
     smt.reset_stats()
     try:
-        mod, w, items = _build_world(prop, variant)
+        if (prop, variant) not in _WORLDS:
+            _WORLDS[(prop, variant)] = _build_world(prop, variant)
+        mod, w, items = _WORLDS[(prop, variant)]
         it = items[idx]
         if isinstance(it, Lemma):
             res = verify_lemma(w, it)
         else:
-            res = verify_function(w, it)
+            res = verify_function(w, it, only_prefix=prefix)
         out = {
+            'task': (variant, idx), 'new_prefixes': getattr(res, 'new_prefixes', []),
             'qualname': res.qualname + ('@' + variant if variant else ''), 'paths': res.paths, 'infeasible': res.infeasible,
             'error': res.error, 'span': res.span, 'file': res.file, 'sha256': res.sha256,
             'seconds': res.seconds, 'exits': res.exits,
@@ -114,6 +121,60 @@ def _work(arg):
                 'error': ('internal', traceback.format_exc()), 'obligations': [],
                 'stats': dict(smt.STATS), 'dropped': [], 'calls': [], 'seconds': 0,
                 'span': None, 'file': None, 'sha256': None, 'exits': {}, 'dead_branches': []}
+
+
+def run_tasks(tasks, jobs):
+    """one task per *path*: a worker explores one decision prefix of one function and reports the prefixes that
+    fork from it; the results of a function's paths are merged"""
+    merged, order = {}, []
+    with multiprocessing.get_context('fork').Pool(jobs) as pool:
+        inflight = []
+        for t in tasks:
+            order.append((t[1], t[2]))
+            inflight.append(pool.apply_async(_work, (tuple(t) + ([],),)))
+        while inflight:
+            still = []
+            progressed = False
+            for a in inflight:
+                if not a.ready():
+                    still.append(a)
+                    continue
+                progressed = True
+                r = a.get()
+                key = r.get('task')
+                if key is None:            # internal error before the task was identified
+                    merged.setdefault(('error', len(merged)), r)
+                    continue
+                for pfx in r.pop('new_prefixes', []):
+                    m = merged.get(key)
+                    if m is not None and m['paths'] >= 4000:
+                        m['error'] = m['error'] or ('unsupported', 'more than 4000 paths')
+                        continue
+                    t = [x for x in tasks if (x[1], x[2]) == key][0]
+                    still.append(pool.apply_async(_work, (tuple(t) + (pfx,),)))
+                if key not in merged:
+                    merged[key] = r
+                else:
+                    m = merged[key]
+                    m['paths'] += r['paths']
+                    m['infeasible'] += r['infeasible']
+                    m['error'] = m['error'] or r['error']
+                    m['seconds'] += r['seconds']
+                    for k, v in r['exits'].items():
+                        m['exits'][k] = m['exits'].get(k, 0) + v
+                    m['dropped'] = sorted(set(m['dropped']) | set(r['dropped']))
+                    m['calls'] = sorted(set(m['calls']) | set(r['calls']))
+                    m['obligations'] += r['obligations']
+                    m['live_paths'] = m.get('live_paths', 0) + r.get('live_paths', 0)
+                    for k, v in r['stats'].items():
+                        m['stats'][k] = m['stats'].get(k, 0) + v
+                    m['dead_branches'] = sorted(set(m.get('dead_branches', [])) | set(r.get('dead_branches', [])))
+            inflight = still
+            if not progressed:
+                time.sleep(0.01)
+    out = [merged[k] for k in order if k in merged]
+    out += [v for k, v in merged.items() if k not in order]
+    return out
 
 
 def sources_hash():
@@ -215,8 +276,7 @@ def main(argv):
     _G['items'] = all_items
     n = len(tasks)
     jobs = int(os.environ.get('PYVC_JOBS', '16'))
-    with multiprocessing.get_context('fork').Pool(min(jobs, max(1, n))) as pool:
-        results = pool.map(_work, tasks, chunksize=1)
+    results = run_tasks(tasks, jobs)
 
     # ---- aggregate
     total = proved = refuted = unknown = known = 0
